@@ -105,10 +105,10 @@ CLAIMED["C04"] = dict(
 
 CLAIMED["C07"] = dict(
     category="translation_validation",
-    technique="per-program translation validation against the property's own wording: each generated generic program P is paired with P' (every generic definition copied per instantiation with its type parameters substituted textually); the real Go AST of P and the real typed tree of P' are executed by the Coq semantics (Sem/GoSem.v, Sem/Src.v) inside coqc and must behave alike; the real Mono program of P is inspected for residue, name uniqueness and the exact instance set",
-    text="23 generic items (unbounded and trait-bounded functions, generic-calls-generic at derived types, same-instance recursion, closures over T, inherent methods of generic types, a concrete impl overlapping a generic one) instantiated at nested concrete types; Go(P) must behave like the substituted P' and Mono(P) must contain no TParam/TVar/TApp, unique names and exactly the reachable instances under the names spec_name_for assigns. mono_correct is not proved; non-termination on polymorphic recursion is a known finding.",
+    technique="per-program translation validation against the property's own wording (each generic program P is paired with P', every generic definition copied per instantiation with its type parameters substituted textually; real Go AST of P and real typed tree of P' executed by the Coq semantics); Coq model of ty_compact / spec_name_for with a proof that the printed type determines the type, compared with the real Mono instance names inside coqc; Mono residue and instance-set inspection",
+    text="printed_type_determines_the_type (no axioms): for all types with non-empty generic applications, equal compact token sequences imply equal types, by a verified reader of the printed form; a character-level refutation example records that '__' inside type names defeats the joined instance name (known finding). Every run: 23 generic items instantiated at nested concrete types; Go(P) must behave like the substituted P'; Mono(P) must contain no TParam/TVar/TApp, unique names, exactly the reachable instances, and the names the Coq model computes. mono_correct is not proved; non-termination on polymorphic recursion is a known finding.",
     design_ref="DESIGN.md §4 C07",
-    note=TRUST + " Sem/GoSem.v is a model of Go and Sem/Src.v the source-level meaning (both validated against outputs recorded from real Go); textual substitution in the generator defines the meaning of an instance. Validation per program, not a proof about all programs.",
+    note=TRUST + " Sem/GoSem.v is a model of Go and Sem/Src.v the source-level meaning (both validated against outputs recorded from real Go); textual substitution in the generator defines the meaning of an instance. The behaviour part is validation per program, not a proof about all programs.",
 )
 
 CLAIMED["C17"] = dict(
